@@ -700,6 +700,7 @@ def _execute(p, s, res):
         # time had clearly passed before this wait began should have ended the wait
         if not in_request[0] or world.watch.blocked_in != "select":
             return
+        req_jumps.append((t_from, t_to))       # the request sat in its wait while the clock moved from .. to ..
         if cur_timeout[0] is None and not world.env and not any(t.state == "blocked" and t.deadline is not None
                                                                 for t in world.threads if t is not world.watch):
             # a request without time-out, nothing on its way, and only the request's own timer moves the clock:
@@ -717,6 +718,12 @@ def _execute(p, s, res):
                       "clock_jumps_to": t_to - world.t0})
     world.on_clock_jump = on_clock_jump
     req_sched_at_start = [set()]
+    req_jumps = []
+
+    def waited_since(t):
+        """how long the current request has sat blocked in select since time t (the clock also creeps with every
+        system call and clock reading of a busy request - that is work, not waiting)"""
+        return sum(b - max(a, t) for a, b in req_jumps if b > t)
 
     ts_completed_time = {}    # serial -> virtual time at which its threadsafe callback had returned
 
@@ -802,6 +809,7 @@ def _execute(p, s, res):
         sel0 = world.probes.get("select_blocked", 0)
         world.log.add("request", si, timeout, deliv)
         idle_jumps[0] = 0
+        del req_jumps[:]
         cur_timeout[0] = timeout
         bursts0 = list(M.bursts)
         in_request[0] = True
@@ -857,10 +865,11 @@ def _execute(p, s, res):
             if spurious >= 2:
                 world.probe("two_spurious_in_one_request")
         # ---- slept through something ----------------------------------------------------------
-        # (virtual time passes only while every thread is blocked: a request that comes back long after a
-        # threadsafe callback had returned, or long after a scheduled event's time, sat in its wait all the while)
+        # (a request that sat in its wait for long after a threadsafe callback had returned, or after a scheduled
+        # event's time: only time spent blocked in select counts, not the work of a busy request)
         if world.main_waited and not res["violation"]:
-            slept = [n for n in list(M.ts_completed) if start < ts_completed_time.get(n, now) < now - 0.05]
+            slept = [n for n in list(M.ts_completed) if start < ts_completed_time.get(n, now)
+                     and waited_since(ts_completed_time[n]) > 0.05]
             if slept:
                 _violate(res, "blocked_past_completed_threadsafe_event", si,
                          {"serials": slept[:5], "callback_returned_at": round(ts_completed_time[slept[0]] - world.t0, 6),
@@ -868,7 +877,7 @@ def _execute(p, s, res):
                 return
             if isinstance(r, SEv):
                 w_ = [x[0] for x in M.sched if x[1] == r.n]
-                if w_ and now - max(w_[0], start) > 0.05:
+                if w_ and waited_since(max(w_[0], start)) > 0.05:
                     _violate(res, "scheduled_event_returned_late", si,
                              {"scheduled_for": round(w_[0] - world.t0, 6), "request_began": round(start - world.t0, 6),
                               "returned_at": round(now - world.t0, 6), "timeout": timeout})
